@@ -71,7 +71,8 @@ func GetJsonDataType(t dsl.Type) JsonDataType {
 	case *dsl.RecordDefinition:
 		return JsonObject
 	case *dsl.GenericTypeParameter:
-		return JsonObject
+		// the type argument may be anything, so no other union case can be told apart from it by its JSON type
+		return JsonNull | JsonBoolean | JsonNumber | JsonString | JsonArray | JsonObject
 	case *dsl.NamedType:
 		return GetJsonDataType(td.Type)
 	default:
